@@ -6,6 +6,7 @@ import (
 	"bytes"
 	"crypto/sha1"
 	"encoding/base64"
+	"errors"
 	"fmt"
 	"io"
 	"net"
@@ -31,8 +32,11 @@ type peerScript struct {
 	Gate       int    `json:"gate,omitempty"`     // the peer starts accepting writes at this time after connect; <0 = never
 	TLS        bool   `json:"tls_peer,omitempty"` // the client speaks TLS: the peer reacts to the first bytes written (the ClientHello) with Garbage bytes that are no TLS record
 	Garbage    int    `json:"garbage,omitempty"`
-	TimeoutErr string `json:"timeout_err,omitempty"`       // shape of the conn's deadline error: "" | nottemp | operror
-	SlowDL     bool   `json:"slow_set_deadline,omitempty"` // every Set*Deadline call takes slowDL of virtual time before it takes effect
+	DLFault    string `json:"set_deadline_fault,omitempty"` // every Set*Deadline call returns an error: err-applied (the deadline is set anyway) | err-ignored (it is not: such a conn does not honour deadlines)
+	CloseErr   bool   `json:"close_fails,omitempty"`        // Close returns an error (the conn counts as closed anyway)
+	FaultTop   bool   `json:"fault_at_top_layer,omitempty"` // the faults are those of the outermost TLSClient/WrapConn wrapper, if there is one, not of the raw conn
+	TimeoutErr string `json:"timeout_err,omitempty"`        // shape of the conn's deadline error: "" | nottemp | operror
+	SlowDL     bool   `json:"slow_set_deadline,omitempty"`  // every Set*Deadline call takes slowDL of virtual time before it takes effect
 }
 
 // slowDL is the latency of a slow Set*Deadline call. It is far below the 1 ms
@@ -130,6 +134,14 @@ func (timeoutError) Is(target error) bool {
 }
 
 var _ net.Error = timeoutError{}
+
+var (
+	errDLFault    = errors.New("scripted conn: set deadline: operation not supported")
+	errCloseFault = errors.New("scripted conn: close: input/output error")
+)
+
+// faultsAtRaw says whether the drawn faults belong to the raw conn.
+func (c *fakeConn) faultsAtRawLocked() bool { return !c.script.FaultTop || len(c.layers) == 0 }
 
 // timeoutNotTemp is a timeout that does not call itself temporary (as
 // context-style deadline errors of some transports do).
@@ -488,13 +500,22 @@ func (c *fakeConn) setDL(kind string, t time.Time, r, w bool) error {
 		c.log[i].Err = net.ErrClosed.Error()
 		return net.ErrClosed
 	}
-	if r {
-		c.rd = t
+	fault := c.script.DLFault != "" && c.faultsAtRawLocked()
+	if fault {
+		c.log[i].Err = errDLFault.Error()
 	}
-	if w {
-		c.wd = t
+	if !fault || c.script.DLFault == "err-applied" {
+		if r {
+			c.rd = t
+		}
+		if w {
+			c.wd = t
+		}
+		c.broadcastLocked()
 	}
-	c.broadcastLocked()
+	if fault {
+		return errDLFault
+	}
 	return nil
 }
 
@@ -525,6 +546,10 @@ func (c *fakeConn) Close() error {
 	c.closed = true
 	c.stopTimersLocked()
 	c.broadcastLocked()
+	if c.script.CloseErr && c.faultsAtRawLocked() {
+		c.log[i].Err = errCloseFault.Error()
+		return errCloseFault
+	}
 	return nil
 }
 
@@ -589,27 +614,47 @@ func (p *passConn) Write(b []byte) (int, error) {
 	return p.inner.Write(b)
 }
 
+// faulty says whether the drawn faults are this layer's.
+func (p *passConn) faulty() bool {
+	p.raw.mu.Lock()
+	defer p.raw.mu.Unlock()
+	return p.raw.script.FaultTop && p.raw.layers[len(p.raw.layers)-1] == p
+}
+
 func (p *passConn) Close() error {
 	p.note("Close", "", func() { p.closed = true })
-	return p.inner.Close()
+	err := p.inner.Close()
+	if p.raw.script.CloseErr && p.faulty() {
+		return errCloseFault
+	}
+	return err
+}
+
+func (p *passConn) setDL(kind string, t time.Time, fwd func(time.Time) error, set func()) error {
+	switch {
+	case p.raw.script.DLFault == "" || !p.faulty():
+		err := fwd(t)
+		p.note(kind, dlArg(t), set)
+		return err
+	case p.raw.script.DLFault == "err-applied":
+		fwd(t)
+		p.note(kind, dlArg(t)+" fails", set)
+	default:
+		p.note(kind, dlArg(t)+" fails, not applied", nil)
+	}
+	return errDLFault
 }
 
 func (p *passConn) SetDeadline(t time.Time) error {
-	err := p.inner.SetDeadline(t)
-	p.note("SetDeadline", dlArg(t), func() { p.rd, p.wd = t, t })
-	return err
+	return p.setDL("SetDeadline", t, p.inner.SetDeadline, func() { p.rd, p.wd = t, t })
 }
 
 func (p *passConn) SetReadDeadline(t time.Time) error {
-	err := p.inner.SetReadDeadline(t)
-	p.note("SetReadDeadline", dlArg(t), func() { p.rd = t })
-	return err
+	return p.setDL("SetReadDeadline", t, p.inner.SetReadDeadline, func() { p.rd = t })
 }
 
 func (p *passConn) SetWriteDeadline(t time.Time) error {
-	err := p.inner.SetWriteDeadline(t)
-	p.note("SetWriteDeadline", dlArg(t), func() { p.wd = t })
-	return err
+	return p.setDL("SetWriteDeadline", t, p.inner.SetWriteDeadline, func() { p.wd = t })
 }
 
 func (p *passConn) LocalAddr() net.Addr  { return p.inner.LocalAddr() }
